@@ -509,6 +509,11 @@ func doComment(line string, w []string) {
 		}
 	}
 
+	// a comment is one line: a text that brings its own line break must be refused (b012a03)
+	if bytes.ContainsAny(text, "\n\r") {
+		classes = append(classes, "newline-text")
+	}
+
 	changedRecs := []int{}
 	if len(dir0) == len(dir1) {
 		for r := 0; r*recSz < len(dir0); r++ {
@@ -686,8 +691,8 @@ func doComment(line string, w []string) {
 			label += ":class=" + strings.Join(classes, "+")
 		}
 	}
-	if bytes.IndexByte(text, '\n') >= 0 {
-		label += ":text-has-newline"
+	if bytes.ContainsAny(text, "\n\r") {
+		label += ":text-has-line-break"
 	}
 	i := run.Op(line, out, label, true)
 	for _, f := range fails {
@@ -792,7 +797,7 @@ func main() {
 
 	run.Rule = "op lines from generators seeded by VERIF_SEED: table check of all 256 type marks; one history per comment type over a .DIR with " +
 		"one article at EVERY score in [-100,100] plus six outside; refusal matrix (no-comment board, marked/solved combinations, L entries " +
-		"requested under their L, M and G names); text lengths 0..80 x every layout (old/new, IP log, aligned id); random histories of 1-30 comments on 2-6 articles; " +
+		"requested under their L, M and G names, texts with line breaks); text lengths 0..80 x every layout (old/new, IP log, aligned id); random histories of 1-30 comments on 2-6 articles; " +
 		"error paths; bbs.CreateComment; malformed stream. Non-trivial = a comment call that reached the real Recommend."
 	if run.Replay != "" {
 		for _, l := range hx.ReplayOps(run.Replay) {
